@@ -391,3 +391,62 @@ Example C07_vtt_to_ssa_styled_example :
   repr_vdoc ex_vs_doc ex_vs_so ex_vs_ro /\ doc_repr (conv_vtt_ssa_m (ndoc ex_vs_doc ex_vs_so ex_vs_ro)) /\
   ptrunc ssa_unit (ptrunc 1000000 (vtt_to_plain ex_vs_doc)) = ex_vs_expected /\ length ex_vs_expected = 2%nat.
 Proof. split; [exact ex_vs_repr | split; [exact ex_vs_conv_repr | split; [exact ex_vs_plain | reflexivity]]]. Qed.
+(* Styled TTML sources -> WebVTT (Model/ConvTtmlVtt.v; the library's bytes are compared with convert_ttml_vtt on every
+   generated styled TTML document, suite convttmlvtt).  What travels, transcribed from ReadFromTTML /
+   propagateTTMLAttributes / WriteToWebVTT: every region (origin -> regionanchor 0%,0%, viewportanchor, scroll up;
+   extent -> width, lines = height / 5 in Go's integer arithmetic) with the one-level fall-back to the style it names;
+   per cue align (textAlign), line / position (origin, swapped under a tb writing mode), region, size (extent) from the
+   paragraph's own attributes with the one-level fall-back to its style; per span the class of its own tts:color when it is
+   one of the five colours the writer knows; the text.
+   Statement: for EVERY document value d of the TTML reader model whose conversion is representable in WebVTT, the
+   conversion succeeds, and the destination read back has the same cues in the same order, times truncated to the
+   millisecond, per line the run texts put together - exact equality, no white-space normalisation:
+   vtt_to_plain d' = ptrunc 1000000 (ttml_to_plain d).
+   Representability is repr_vdoc of C02 applied to tv_norm (conv_ttml_vtt d): the converted document with its lines in the
+   WebVTT writer's normal form - a span of one of the five colours as a run inside the class tag c.NAME, adjacent spans
+   without such a colour as ONE run (the WebVTT reader cannot tell them apart).  tv_norm (conv_ttml_vtt d) is written byte
+   for byte like conv_ttml_vtt d (lemma tv_norm_bytes).  repr_vdoc then asks: times in [0, max_int64]; every line non-empty,
+   valid UTF-8 without NUL, without white space at its ends, not looking like another kind of WebVTT line (NOTE, STYLE,
+   Region:, an arrow, digits only); settings and region attributes without white space, ':' resp. '=' ; region identifiers
+   alike.  Two shapes of lines are outside it although the library converts them correctly (harness oracle): two ADJACENT
+   spans carrying the SAME one of the five colours (the writer closes and reopens the class tag, which is not in the
+   image of the WebVTT writer's normal form), and an uncoloured span whose text begins with the byte 0xA0 right after
+   another uncoloured span.
+   _file: from any source bytes the TTML reader model accepts (XML parser model for hand-written documents);
+   _written: from any representable TTML document value written by the library's TTML writer with any white-space indent.
+   Non-vacuity: C07_ttml_to_vtt_styled_example (source bytes with two regions with origin/extent, one of them falling back
+   to a style and with a tb writing mode, a style with textAlign referenced by a paragraph, a coloured span, bare text, two
+   adjacent uncoloured spans, a line break; the model's conversion of these bytes equals the bytes the library wrote). *)
+From Astisub Require Import Model.Ttml Model.ConvTtmlVtt Proofs.TtmlDocSpec Proofs.ConvTtmlVttProofs.
+Theorem C07_ttml_to_vtt_styled : forall d so ro,
+  repr_vdoc (tv_norm (conv_ttml_vtt d)) so ro ->
+  exists dst d', write_vtt (conv_ttml_vtt d) so ro = Ok dst /\ read_vtt dst = Ok d' /\
+                 vtt_to_plain d' = ptrunc 1000000 (ttml_to_plain d).
+Proof. exact ttml_to_vtt_styled. Qed.
+Print Assumptions C07_ttml_to_vtt_styled.
+Theorem C07_ttml_to_vtt_styled_file : forall data d,
+  read_ttml_bytes2 data = Ok d ->
+  repr_vdoc (tv_norm (conv_ttml_vtt d)) (tv_style_order d) (tv_region_order d) ->
+  exists dst d', convert_ttml_vtt data = Ok dst /\ read_vtt dst = Ok d' /\
+                 vtt_to_plain d' = ptrunc 1000000 (ttml_to_plain d).
+Proof. exact ttml_to_vtt_styled_file. Qed.
+Print Assumptions C07_ttml_to_vtt_styled_file.
+Theorem C07_ttml_to_vtt_styled_written : forall d ind,
+  repr_doc d = true -> indent_ok ind = true ->
+  repr_vdoc (tv_norm (conv_ttml_vtt (written_value d))) (tv_style_order d) (tv_region_order d) ->
+  exists src dst d', write_ttml_bytes ind d = Ok src /\ convert_ttml_vtt src = Ok dst /\ read_vtt dst = Ok d' /\
+                     vtt_to_plain d' = ptrunc 1000000 (ttml_to_plain d).
+Proof. exact ttml_to_vtt_styled_written. Qed.
+Print Assumptions C07_ttml_to_vtt_styled_written.
+(* the normal form is written byte for byte like the converted document *)
+Theorem C07_ttml_to_vtt_norm_bytes : forall d so ro,
+  repr_vdoc (tv_norm (conv_ttml_vtt d)) so ro ->
+  write_vtt (tv_norm (conv_ttml_vtt d)) so ro = write_vtt (conv_ttml_vtt d) so ro.
+Proof. exact (fun d so ro H => tv_norm_bytes _ so ro (conv_flat d) (repr_chains _ so ro H)). Qed.
+Print Assumptions C07_ttml_to_vtt_norm_bytes.
+Example C07_ttml_to_vtt_styled_example :
+  read_ttml_bytes2 ex_tv_src = Ok ex_tv_doc /\
+  convert_ttml_vtt ex_tv_src = Ok ex_tv_dst /\
+  repr_vdoc (tv_norm (conv_ttml_vtt ex_tv_doc)) (tv_style_order ex_tv_doc) (tv_region_order ex_tv_doc) /\
+  (exists d', read_vtt ex_tv_dst = Ok d' /\ vtt_to_plain d' = ptrunc 1000000 (ttml_to_plain ex_tv_doc)).
+Proof. exact ex_tv_all. Qed.
